@@ -239,6 +239,10 @@ func RunIn(sched []InStep, o InOpts) *InResult {
 			}
 		}
 	}
+	// The schedule may expect a shell to have ended by a failure that cannot happen in this
+	// execution (no line left to fail on): the caller then cancels it, which the
+	// specification allows at any time.  Only after that cancellation is the wait generous.
+	wait2 := 30 * time.Millisecond
 	waitReleased := func() bool {
 		if cur == nil {
 			return true
@@ -254,7 +258,7 @@ func RunIn(sched []InStep, o InOpts) *InResult {
 		case <-released:
 			cur = nil
 			return true
-		case <-time.After(Wait):
+		case <-time.After(wait2):
 			return false
 		}
 	}
@@ -319,7 +323,10 @@ func RunIn(sched []InStep, o InOpts) *InResult {
 					rec.add(TraceEv{"e": "CancelStart"})
 					cur.Cancel()
 					rec.add(TraceEv{"e": "CancelEnd"})
-					if !waitReleased() {
+					wait2 = Wait
+					ok := waitReleased()
+					wait2 = 30 * time.Millisecond
+					if !ok {
 						res.Infra = fmt.Errorf("input stream %d never released", curS)
 						continue
 					}
@@ -372,6 +379,7 @@ func RunIn(sched []InStep, o InOpts) *InResult {
 		rec.add(TraceEv{"e": "CancelStart"})
 		cur.Cancel()
 		rec.add(TraceEv{"e": "CancelEnd"})
+		wait2 = Wait
 		waitReleased()
 	}
 	relOK := cur == nil
